@@ -135,10 +135,11 @@ def check_input(tc, data, ev, lib="aldor", confirm=True):
         elif (r.rc != 0) != haserr:
             kind, what = "dishonest-status", "exit status %d but %s error message printed" % (r.rc, "an" if haserr else "no")
         site = aldor.fault_site(tc, t) if kind in ("fault", "signal") else ""
+        phase = aldor.fault_phase(tc, t) if kind in ("fault", "signal") else ""
     ev.classes["rc_nonzero" if r.rc != 0 else "rc_zero"] += 1
     if what is None:
         return None, haserr, r.rc
-    return Fail({"kind": kind, "site": site, "what": "%s [%s] on input of %d bytes: %s" % (what, site, len(data), (t[-200:] + " || stderr: " + err[-150:]).replace("\n", " | "))},
+    return Fail({"kind": kind, "site": site, "phase": phase, "accepted": "no" if haserr else "yes", "what": "%s [%s] on input of %d bytes: %s" % (what, site, len(data), (t[-200:] + " || stderr: " + err[-150:]).replace("\n", " | "))},
                 {"input_hex": data.hex(), "lib": lib}), haserr, r.rc
 
 
